@@ -1,6 +1,7 @@
 package main
 
 import (
+	"time"
 	"context"
 	"fmt"
 	"math"
@@ -344,6 +345,61 @@ func reannounce(r *common.Rand, kind string, prev [][2]string) [][2]string {
 	return out
 }
 
+// c11Grouped: the selector as an XClient with Option.Group drives it: after every discovery update has been applied,
+// selections come from the servers of the client's group in the NEWEST set (active ones), whatever the strategy.
+// Oracle only.  case: grp|<mode>|<set>#<set>...   set = name=meta,name=meta
+func c11Grouped(o *common.Out, id string, mode client.SelectMode, hist []snap) {
+	var hs []string
+	for _, sn := range hist {
+		hs = append(hs, sn.enc())
+	}
+	abstract := fmt.Sprintf("grp|%d|%s", int(mode), strings.Join(hs, "#"))
+	o.Begin(id, abstract)
+	o.Count("xclient-with-group")
+	d, _ := client.NewMultipleServersDiscovery(hist[0].pairs())
+	opt := client.DefaultOption
+	opt.Group = "g"
+	xc := client.NewXClient("Svc", client.Failfast, mode, d, opt)
+	defer xc.Close()
+	md := d
+	eligible := func(sn snap) map[string]bool {
+		out := map[string]bool{}
+		for name, meta := range client.VerifFilterByStateAndGroup("g", sn) {
+			if mode == client.WeightedRoundRobin && effWeight(meta) <= 0 {
+				continue
+			}
+			out[name] = true
+		}
+		return out
+	}
+	for i, sn := range hist {
+		if i > 0 {
+			md.Update(sn.pairs())
+		}
+		kept := client.VerifFilterByStateAndGroup("g", sn)
+		if !waitServers(xc, mapKeys(kept), sn) {
+			o.Fail(id, "update-not-applied", fmt.Sprintf("update %d was not applied within 2s", i), abstract)
+			break
+		}
+		time.Sleep(300 * time.Microsecond) // the selector is updated right after the server map
+		el := eligible(sn)
+		for k := 0; k < 6; k++ {
+			got := client.VerifXClientSelect(xc, "Svc", "M", fmt.Sprintf("k%d", k))
+			if got == "" {
+				if len(el) > 0 && mode != client.WeightedRoundRobin {
+					o.Fail(id, "empty-from-nonempty", fmt.Sprintf("after update %d: nothing selected although %d servers of the group are announced", i, len(el)), abstract)
+				}
+				continue
+			}
+			if !el[got] {
+				o.Fail(id, "stale-or-ineligible", fmt.Sprintf("after update %d (%s): selected %s, which is not an active server of group g in the newest set", i, sn.enc(), got), abstract)
+				break
+			}
+		}
+	}
+	o.ImplOnly(id, abstract, len(hist) > 1)
+}
+
 func genServers(r *common.Rand, kind string) [][2]string {
 	n := r.Intn(9)
 	if r.Chance(12) {
@@ -425,10 +481,39 @@ func runC11(r *common.Rand, tier string, o *common.Out, replay string) {
 		c11Long(o, "long-wrr", client.WeightedRoundRobin)
 		c11Long(o, "long-rr", client.RoundRobin)
 	}
+	if strings.HasPrefix(replay, "grp|") {
+		p := strings.SplitN(replay, "|", 3)
+		m, _ := strconv.Atoi(p[1])
+		var hist []snap
+		for _, e := range strings.Split(p[2], "#") {
+			hist = append(hist, parseSnap(e))
+		}
+		c11Grouped(o, "replay", client.SelectMode(m), hist)
+		return
+	}
 	if replay != "" {
 		kind, cfg, ops := decOps(replay)
 		c11Run(o, "replay", kind, cfg, ops)
 		return
+	}
+	{
+		// the client's group next to another group: servers of the group go inactive, move to the other group, leave
+		// while the raw number of announcements stays what the client's view was, are replaced by foreign ones
+		A, B, Z := "vsrv@a", "vsrv@b", "vsrv@z"
+		hists := [][]snap{
+			{{A: "group=g", B: "group=g"}, {A: "group=g", B: "group=g&state=inactive"}},
+			{{A: "group=g", B: "group=g"}, {A: "group=g", B: "group=h"}},
+			{{A: "group=g", B: "group=g", Z: "group=h"}, {A: "group=g", Z: "group=h"}},
+			{{B: "group=g"}, {Z: "group=h"}},
+			{{A: "group=g&weight=2", B: "group=g&weight=3", Z: "group=h"}, {A: "group=g&weight=2", Z: "group=h"}, {A: "group=g&weight=2", B: "group=g"}},
+		}
+		k := 0
+		for _, mode := range []client.SelectMode{client.RandomSelect, client.RoundRobin, client.WeightedRoundRobin, client.ConsistentHash} {
+			for _, h := range hists {
+				k++
+				c11Grouped(o, fmt.Sprintf("grp%d", k), mode, h)
+			}
+		}
 	}
 	n := 2500
 	if tier == "thorough" {
